@@ -424,6 +424,22 @@ def run_replay(pid: str, path: str) -> int:
     return 0
 
 
+def _with_scratch(fn, *a):
+    """every temporary directory of a run (mc/e2e.py sessions and fabrics, created in worker and forked processes that may
+    end without running their own clean-up) lives below one scratch directory that the top-level process removes"""
+    import shutil
+    import tempfile
+    root = tempfile.mkdtemp(prefix="verif-run-")
+    os.environ["VERIF_SCRATCH"] = root
+    tempfile.tempdir = root
+    try:
+        return fn(*a)
+    finally:
+        tempfile.tempdir = None
+        os.environ.pop("VERIF_SCRATCH", None)
+        shutil.rmtree(root, ignore_errors=True)
+
+
 def main(argv):
     if len(argv) < 2:
         print("usage: check Cxx quick|thorough | check Cxx --replay FILE", file=sys.stderr)
@@ -433,11 +449,11 @@ def main(argv):
         print("unknown property %s" % pid, file=sys.stderr)
         return 2
     if argv[1] == "--replay":
-        return run_replay(pid, argv[2])
+        return _with_scratch(run_replay, pid, argv[2])
     tier = argv[1]
     assert tier in ("quick", "thorough")
     seed = int(os.environ.get("VERIF_SEED", "0") or 0)
-    return run_check(pid, tier, seed)
+    return _with_scratch(run_check, pid, tier, seed)
 
 
 if __name__ == "__main__":
